@@ -25,7 +25,6 @@ import (
 	"github.com/go-openapi/analysis/internal/flatten/replace"
 	"github.com/go-openapi/analysis/internal/flatten/schutils"
 	"github.com/go-openapi/analysis/internal/flatten/sortref"
-	"github.com/go-openapi/jsonpointer"
 	"github.com/go-openapi/spec"
 )
 
@@ -272,27 +271,45 @@ func removeUnused(opts *FlattenOpts) {
 }
 
 func removeUnusedSinglePass(opts *FlattenOpts) (hasRemoved bool) {
-	expected := make(map[string]struct{})
+	unused := make(map[string]struct{}, len(opts.Swagger().Definitions))
 	for k := range opts.Swagger().Definitions {
-		expected[path.Join(definitionsPath, jsonpointer.Escape(k))] = struct{}{}
+		unused[k] = struct{}{}
 	}
 
-	for _, k := range opts.Spec.AllDefinitionReferences() {
-		delete(expected, k)
-	}
-
-	for k := range expected {
-		hasRemoved = true
-		debugLog("removing unused definition %s", path.Base(k))
-		if opts.Verbose {
-			log.Printf("info: removing unused definition: %s", path.Base(k))
+	// a definition is used when some schema $ref designates it: compare decoded names,
+	// since the string form of a $ref is both JSON-pointer- and URL-escaped
+	for _, ref := range opts.Spec.references.schemas {
+		if name, ok := definitionNameFromRef(ref); ok {
+			delete(unused, name)
 		}
-		delete(opts.Swagger().Definitions, path.Base(k))
+	}
+
+	for k := range unused {
+		hasRemoved = true
+		debugLog("removing unused definition %s", k)
+		if opts.Verbose {
+			log.Printf("info: removing unused definition: %s", k)
+		}
+		delete(opts.Swagger().Definitions, k)
 	}
 
 	opts.Spec.reload() // re-analyze
 
 	return hasRemoved
+}
+
+// definitionNameFromRef yields the name of the top-level definition a local $ref designates, if any.
+func definitionNameFromRef(ref spec.Ref) (string, bool) {
+	if !ref.HasFragmentOnly || ref.GetPointer() == nil {
+		return "", false
+	}
+
+	tokens := ref.GetPointer().DecodedTokens()
+	if len(tokens) != 2 || tokens[0] != "definitions" { //nolint:mnd
+		return "", false
+	}
+
+	return tokens[1], true
 }
 
 func importKnownRef(entry sortref.RefRevIdx, refStr, newName string, opts *FlattenOpts) error {
